@@ -1,6 +1,7 @@
 import Nstd.Json.ModelInto
 import Nstd.Json.LemmasParse
 set_option linter.unusedSimpArgs false
+set_option linter.unusedVariables false
 namespace Nstd.Json
 
 /-- the items that were in the Variant before stay in front -/
@@ -78,5 +79,179 @@ example : parseInto (.list [.null]) [91, 49, 44, 50, 93, 0] = .ok (.list [.null,
 example : parseInto (.map [([97], .int 1), ([98], .null)]) [123, 34, 99, 34, 58, 49, 44, 34, 97, 34, 58, 50, 125, 0]
     = .ok (.map [([97], .int 2), ([98], .null), ([99], .int 1)]) := by rfl
 example : parseInto (.list [.null]) [55, 0] = .ok (.int 7) := by rfl
+
+
+/-! ### a Variant that already holds a map -/
+
+abbrev JMap := List (List Byte × Val)
+
+/-- `HashMap::append` of every member of `m'`, in order, into `m` -/
+def mergeMap (m m' : JMap) : JMap := m'.foldl (fun a kv => mapAppend a kv.1 kv.2) m
+
+def mergeInto (m : JMap) : Val → Val
+  | .map m' => .map (mergeMap m m')
+  | v => v
+
+def mkeys (m : JMap) : List (List Byte) := m.map Prod.fst
+
+theorem mkeys_mapAppend (m : JMap) (k : List Byte) (v : Val) :
+    mkeys (mapAppend m k v) = if k ∈ mkeys m then mkeys m else mkeys m ++ [k] := by
+  induction m with
+  | nil => simp [mapAppend, mkeys]
+  | cons a t ih =>
+    obtain ⟨k', v'⟩ := a
+    simp only [mapAppend]
+    by_cases e : k' = k
+    · simp [e, mkeys]
+    · simp only [e, if_false]
+      have : mkeys ((k', v') :: mapAppend t k v) = k' :: mkeys (mapAppend t k v) := rfl
+      rw [this, ih]
+      have e' : ¬ k = k' := fun h => e h.symm
+      have mk : mkeys ((k', v') :: t) = k' :: mkeys t := rfl
+      rw [mk]
+      by_cases hk : k ∈ mkeys t
+      · simp [hk]
+      · simp [hk, e']
+
+theorem nodup_mapAppend (m : JMap) (k : List Byte) (v : Val) (h : (mkeys m).Nodup) : (mkeys (mapAppend m k v)).Nodup := by
+  rw [mkeys_mapAppend]
+  by_cases hk : k ∈ mkeys m
+  · simp [hk, h]
+  · simp only [hk, if_false]
+    exact List.nodup_append.mpr ⟨h, by simp, by intro a ha b hb; simp at hb; subst hb; intro e; exact hk (e ▸ ha)⟩
+
+theorem mapAppend_twice (m : JMap) (k : List Byte) (v' v : Val) : mapAppend (mapAppend m k v') k v = mapAppend m k v := by
+  induction m with
+  | nil => simp [mapAppend]
+  | cons a t ih =>
+    obtain ⟨k1, v1⟩ := a
+    simp only [mapAppend]
+    by_cases e : k1 = k
+    · simp [e, mapAppend]
+    · simp [e, mapAppend, ih]
+
+theorem mapAppend_comm (m : JMap) (k k1 : List Byte) (v v1 : Val) (hne : k ≠ k1) (hk : k ∈ mkeys m) :
+    mapAppend (mapAppend m k1 v1) k v = mapAppend (mapAppend m k v) k1 v1 := by
+  induction m with
+  | nil => simp [mkeys] at hk
+  | cons a t ih =>
+    obtain ⟨k2, v2⟩ := a
+    by_cases e : k2 = k
+    · subst e
+      have : ¬ k2 = k1 := hne
+      simp [mapAppend, this]
+    · have hk' : k ∈ mkeys t := by
+        simp [mkeys] at hk
+        rcases hk with h | h
+        · exact absurd h.symm e
+        · simpa [mkeys] using h
+      by_cases e1 : k2 = k1
+      · simp [mapAppend, e, e1]
+        subst e1
+        simp [mapAppend, e]
+      · simp [mapAppend, e, e1, ih hk']
+
+theorem mem_mkeys_mapAppend (m : JMap) (k k1 : List Byte) (v1 : Val) (hk : k ∈ mkeys m) : k ∈ mkeys (mapAppend m k1 v1) := by
+  rw [mkeys_mapAppend]; by_cases h : k1 ∈ mkeys m <;> simp [h, hk]
+
+theorem merge_then_set (t : JMap) : ∀ (M : JMap) (k : List Byte) (v : Val), k ∈ mkeys M → k ∉ mkeys t →
+    mapAppend (mergeMap M t) k v = mergeMap (mapAppend M k v) t := by
+  induction t with
+  | nil => intro M k v _ _; rfl
+  | cons a t ih =>
+    intro M k v hk hn
+    obtain ⟨k1, v1⟩ := a
+    have hne : k ≠ k1 := by intro e; apply hn; simp [mkeys, e]
+    have hn' : k ∉ mkeys t := by intro e; apply hn; simp [mkeys] at e ⊢; exact Or.inr e
+    show mapAppend (mergeMap (mapAppend M k1 v1) t) k v = mergeMap (mapAppend (mapAppend M k v) k1 v1) t
+    rw [ih (mapAppend M k1 v1) k v (mem_mkeys_mapAppend M k k1 v1 hk) hn', mapAppend_comm M k k1 v v1 hne hk]
+
+theorem merge_mapAppend (acc : JMap) : ∀ (m : JMap) (k : List Byte) (v : Val), (mkeys acc).Nodup →
+    mergeMap m (mapAppend acc k v) = mapAppend (mergeMap m acc) k v := by
+  induction acc with
+  | nil => intro m k v _; rfl
+  | cons a t ih =>
+    intro m k v hnd
+    obtain ⟨k', v'⟩ := a
+    have hnd' : (mkeys t).Nodup := by simp [mkeys] at hnd ⊢; exact hnd.2
+    have hnot : k' ∉ mkeys t := by simp [mkeys] at hnd ⊢; exact hnd.1
+    by_cases e : k' = k
+    · subst e
+      simp only [mapAppend, if_true]
+      show mergeMap (mapAppend m k' v) t = mapAppend (mergeMap (mapAppend m k' v') t) k' v
+      rw [merge_then_set t (mapAppend m k' v') k' v (by rw [mkeys_mapAppend]; by_cases h : k' ∈ mkeys m <;> simp [h]) hnot,
+        mapAppend_twice]
+    · simp only [mapAppend, e, if_false]
+      show mergeMap (mapAppend m k' v') (mapAppend t k v) = mapAppend (mergeMap (mapAppend m k' v') t) k v
+      exact ih (mapAppend m k' v') k v hnd'
+
+theorem obj_prefix (m : JMap) : ∀ (f : Nat) (acc : JMap) (st : St), (mkeys acc).Nodup →
+    objLoop f (mergeMap m acc) st = (objLoop f acc st).bind fun x => .ok (mergeInto m x.1, x.2) := by
+  intro f
+  induction f with
+  | zero => intro acc st _; rw [objLoop, objLoop]; rfl
+  | succ f ih =>
+    intro acc st hnd
+    rw [objLoop, objLoop]
+    by_cases h125 : st.tok = 125
+    · simp only [h125, if_true]
+      cases st.next <;> rfl
+    simp only [h125, if_false]
+    by_cases h34 : st.tok ≠ 34
+    · rw [if_pos h34, if_pos h34]; rfl
+    rw [if_neg h34, if_neg h34]
+    cases st.next with
+    | ok st1 =>
+      simp only [Res.bind]
+      by_cases q58 : st1.tok ≠ 58
+      · rw [if_pos q58, if_pos q58]
+      rw [if_neg q58, if_neg q58]
+      cases st1.next with
+      | ok st2 =>
+        simp only []
+        cases parseValue f st2 with
+        | ok x =>
+          obtain ⟨v, st3⟩ := x
+          simp only []
+          by_cases q125 : st3.tok = 125
+          · simp only [q125, if_true]
+            rw [← merge_mapAppend acc m _ v hnd]
+            cases st3.next <;> rfl
+          simp only [q125, if_false]
+          by_cases q44 : st3.tok ≠ 44
+          · rw [if_pos q44, if_pos q44]
+          rw [if_neg q44, if_neg q44]
+          cases st3.next with
+          | ok st4 =>
+            simp only []
+            rw [← merge_mapAppend acc m _ v hnd]
+            exact ih _ st4 (nodup_mapAppend acc _ v hnd)
+          | _ => rfl
+        | _ => rfl
+      | _ => rfl
+    | _ => rfl
+
+/-- a Variant that already holds the map `m`, text = an object: same outcome as `parse`; the parsed members are
+    `HashMap::append`ed to `m` in order (a name that `m` already has keeps its place and takes the new value) -/
+theorem parseInto_object (m : JMap) (buf : List Byte) (st : St) (hst : readToken 1 buf = .ok st) (h123 : st.tok = 123) :
+    parseInto (.map m) buf = match parse buf with
+      | .ok v => .ok (mergeInto m v)
+      | e => e := by
+  unfold parseInto parse
+  rw [hst]
+  simp only
+  have hs : ¬ isScalarTok st.tok = true := by rw [h123]; decide
+  have h91 : ¬ st.tok = 91 := by rw [h123]; decide
+  unfold parseFuel
+  rw [parseValueInto, parseValue]
+  simp only [hs, h91, h123, if_true, if_false, initMap, Bool.false_eq_true]
+  cases st.next with
+  | ok st1 =>
+    simp only [Res.bind]
+    have := obj_prefix m (2 * buf.length + 3) [] st1 (by simp [mkeys])
+    simp only [mergeMap, List.foldl_nil] at this
+    rw [this]
+    cases objLoop (2 * buf.length + 3) [] st1 <;> rfl
+  | _ => rfl
 
 end Nstd.Json
